@@ -196,7 +196,11 @@ func statusObs(st *verifhook.Status, err error) string {
 func statusUnmarshalObs(text string) string {
 	return guard(func() string {
 		var st verifhook.Status
-		err := st.UnmarshalText([]byte(text))
+		b := []byte(text)
+		err := st.UnmarshalText(b)
+		if bad := argCheck(b, text); bad != "" {
+			return bad
+		}
 		return statusObs(&st, err)
 	})
 }
@@ -207,6 +211,9 @@ func statusRT(code int64, text string) string {
 		b, err := st.MarshalText()
 		if err != nil {
 			return obsErr()
+		}
+		if st.Code != int(code) || st.Text != text {
+			return "(modified-receiver)"
 		}
 		return hx.L(hx.S(string(b)), statusUnmarshalObs(string(b)))
 	})
@@ -252,17 +259,25 @@ func inZone(secs, off int64) time.Time {
 func timeDecObs(text string) string {
 	return guard(func() string {
 		var t verifhook.Time
-		err := t.UnmarshalText([]byte(text))
+		b := []byte(text)
+		err := t.UnmarshalText(b)
+		if bad := argCheck(b, text); bad != "" {
+			return bad
+		}
 		return timeObs(time.Time(t), err)
 	})
 }
 
 func timeRT(secs, off int64) string {
 	return guard(func() string {
-		t := verifhook.Time(inZone(secs, off))
+		orig := inZone(secs, off)
+		t := verifhook.Time(orig)
 		b, err := t.MarshalText()
 		if err != nil {
 			return obsErr()
+		}
+		if time.Time(t) != orig {
+			return "(modified-receiver)"
 		}
 		return hx.L(hx.S(string(b)), timeDecObs(string(b)))
 	})
@@ -270,7 +285,11 @@ func timeRT(secs, off int64) string {
 
 func icalDecObs(text string) string {
 	return guard(func() string {
-		t, err := caldav.VerifUnmarshalDateWithUTCTime([]byte(text))
+		b := []byte(text)
+		t, err := caldav.VerifUnmarshalDateWithUTCTime(b)
+		if bad := argCheck(b, text); bad != "" {
+			return bad
+		}
 		return timeObs(t, err)
 	})
 }
@@ -303,7 +322,11 @@ func strObs(s string, err error) string {
 func etagDecObs(text string) string {
 	return guard(func() string {
 		var e verifhook.ETag
-		err := e.UnmarshalText([]byte(text))
+		b := []byte(text)
+		err := e.UnmarshalText(b)
+		if bad := argCheck(b, text); bad != "" {
+			return bad
+		}
 		return strObs(string(e), err)
 	})
 }
@@ -388,7 +411,12 @@ func hrefObsOf(h *verifhook.Href) string {
 func hrefDecObs(text string) string {
 	return guard(func() string {
 		var h verifhook.Href
-		if err := h.UnmarshalText([]byte(text)); err != nil {
+		b := []byte(text)
+		err := h.UnmarshalText(b)
+		if bad := argCheck(b, text); bad != "" {
+			return bad
+		}
+		if err != nil {
 			return obsErr()
 		}
 		return hrefObsOf(&h)
@@ -404,6 +432,9 @@ func hrefRT(p string) string {
 		}
 		if h.String() != string(b) {
 			return obsErr()
+		}
+		if h != (verifhook.Href{Path: p}) {
+			return "(modified-receiver)"
 		}
 		return hx.L(hx.S(string(b)), hrefDecObs(string(b)))
 	})
@@ -470,6 +501,17 @@ func timeE2E(secs, off int64) string {
 
 // ---------------------------------------------------------------- dispatch
 
+// safeExec: nothing the harness calls may kill it; a panic that escapes the guards of a
+// case is the observation of that case.
+func safeExec(in string) (line string) {
+	defer func() {
+		if r := recover(); r != nil {
+			line = in + " " + obsPanic()
+		}
+	}()
+	return exec(in)
+}
+
 func exec(in string) string {
 	x := hx.MustParse(in)[0]
 	a := x.Args()
@@ -486,8 +528,10 @@ func exec(in string) string {
 	case "depth-dec":
 		obs = depthParseObs(a[0].Str())
 	case "ow-rt":
-		s := verifhook.FormatOverwrite(a[0].Bool())
-		obs = hx.L(hx.S(s), owParseObs(s))
+		obs = guard(func() string {
+			s := verifhook.FormatOverwrite(a[0].Bool())
+			return hx.L(hx.S(s), owParseObs(s))
+		})
 	case "ow-dec":
 		obs = owParseObs(a[0].Str())
 	case "copy-e2e":
@@ -534,7 +578,10 @@ func exec(in string) string {
 	case "utf8-enc":
 		obs = hx.S(string(utf8.AppendRune(nil, rune(a[0].Int()))))
 	default:
-		panic("harness: unknown case " + in)
+		var ok bool
+		if obs, ok = execAudit(x); !ok {
+			panic("harness: unknown case " + in)
+		}
 	}
 	return in + " " + obs
 }
@@ -1117,8 +1164,10 @@ func genHref(emit func(string), r *hx.Rand, thorough bool) {
 		sample = append(sample, randPath(r))
 	}
 	for _, p := range append(sample, "/a/b", "/a b/caf\xc3\xa9", "/x?y#z%", "/a:b/c") {
-		h := verifhook.Href{Path: p}
-		t := h.String()
+		t, ok := hrefText(p)
+		if !ok {
+			continue
+		}
 		dec(t)
 		for _, m := range nearMisses(t, alts) {
 			dec(m)
@@ -1134,8 +1183,8 @@ func genHref(emit func(string), r *hx.Rand, thorough bool) {
 				t += r.Pick(pieces)
 			}
 		case 1:
-			h := verifhook.Href{Path: randPath(r)}
-			t = h.String() + r.Pick([]string{"", "", "?q", "?", "#f", "?a=b#f", "#%zz", " "})
+			t, _ = hrefText(randPath(r))
+			t += r.Pick([]string{"", "", "?q", "?", "#f", "?a=b#f", "#%zz", " "})
 		default:
 			t = randBytes(r, 12)
 		}
@@ -1151,13 +1200,20 @@ func main() {
 	stage := flag.String("stage", "small", "which primitives to exercise")
 	flag.Parse()
 	time.Local = time.UTC // zone abbreviations are looked up in time.Local; keep the run independent of TZ
+	if *stage == "datelocal" {
+		// a process whose zone is not UTC (and has DST): time.Unix and os.Stat yield values in
+		// this zone. Only texts whose reading does not depend on the process zone are decoded.
+		if loc, err := time.LoadLocation("Europe/Berlin"); err == nil {
+			time.Local = loc
+		}
+	}
 	sink := hx.NewSink(*out)
 	defer sink.Close()
 
 	if *replay != "" {
 		for _, l := range hx.ReadLines(*replay) {
 			items := hx.MustParse(l)
-			sink.Put(exec(items[0].String()))
+			sink.Put(safeExec(items[0].String()))
 		}
 		return
 	}
@@ -1169,7 +1225,7 @@ func main() {
 		go func() {
 			defer wg.Done()
 			for in := range inputs {
-				sink.Put(exec(in))
+				sink.Put(safeExec(in))
 			}
 		}()
 	}
@@ -1191,6 +1247,10 @@ func main() {
 		genETag(emit, rng, thorough)
 	case "href":
 		genHref(emit, rng, thorough)
+	case "seq":
+		genSeq(emit, rng, thorough)
+	case "datelocal":
+		genDateLocal(emit, rng, thorough)
 	default:
 		fmt.Fprintln(os.Stderr, "c16: unknown stage", *stage)
 		os.Exit(2)
